@@ -44,6 +44,8 @@ def sigma(i):
         ('label', f'lb{i}'),
         ('fill', 0, 7),
         ('comment', 'c'),
+        ('data', 1, [m, 0]),              # ends in a byte equal to the fill value 00 ...
+        ('fill', 2, 0xFF),                # ... and to the fill value ff: emitted bytes, whatever the fill is
     ]
 
 
@@ -54,7 +56,7 @@ FILLS = [0xFF, 0x1A5, 0]
 def meta(tier):
     q = tier == 'quick'
     return {
-        'rule': 'programs: every history over the 11-symbol line alphabet up to the depth bound under 5 configurations '
+        'rule': 'programs: every history over the 13-symbol line alphabet (incl. lines whose last byte equals a fill value) up to the depth bound under 5 configurations '
                 '(plain / predefined data block / non-zero default origin / a GLOBAL zone ending at 13, so that windows reach beyond the addressable memory / a GLOBAL zone starting at 4, so that windows start below it) that the reference accepts; windows: every start in '
                 '[0, top+2] x every end in {absent} U [start-1, top+2] (top = highest emitted address) x fill values, the number of -v flags (0..3) rotating with the window, every other window written over an existing 25-byte file; '
                 'plus the repository\'s example programs under their own definitions (quick: every third), windows from a boundary set around the first, middle and last emitted address, each the slice of the whole memory map; non-trivial = a window that cuts through a multi-byte line, or covers a gap / muted byte, or lies beyond the code; '
